@@ -171,6 +171,21 @@ def run(chk):
                     break
             if failures:
                 break
+    # a memo theorem broke: evaluate the regenerated memo prologues in Lean with IEEE doubles to find the keys for which the
+    # cache is not a first-call cache, then confront the implementation with exactly those keys
+    memo_note = ""
+    if not proved and tgen_ok and drivers_ok:
+        pairs, lean_out = rngcorr.lean_memo_disagreements(info.get("memo", []))
+        for fname, ps in pairs.items():
+            memo_note = (" The regenerated memo prologue of %s, evaluated in Lean with IEEE doubles, is not a function of its argument: "
+                         "prologue x (prologue y init) differs from prologue x init for (x, y) = %s." % (fname, ", ".join("(%r, %r)" % p for p in ps[:3])))
+            for sc in rngcorr.memo_scenarios(fname, ps):
+                account(sc)
+                msg = rngcorr.judge_seedalone(c_exe, sc)
+                if msg:
+                    failures.append(("seedalone", sc, msg))
+        if not pairs and lean_out.strip():
+            chk.log("memo grid in Lean: " + lean_out.strip()[:400])
     # ---- coverage ----------------------------------------------------------------------------------
     chk.cov["evaluations"] = evals
     chk.cov["distinct_nontrivial"] = len(sigs)
@@ -184,7 +199,7 @@ def run(chk):
         "TEST part (not a theorem): (a) implementation vs the documented generator (Spec) for 40 raw outputs, 4 cmb_random numerators and a "
         "digest of up to 30000 further outputs per seed; (b) seed-alone differential on the implementation over ALL samplers: the same seed "
         "and calls after 1-3 different histories (earlier seeds, partially consumed bit caches, memoising samplers called with equal / "
-        "different parameters), each on a fresh thread / all threads concurrently / one after another on the main thread; doubles compared "
+        "different parameters, and with parameters that are different doubles less than 1e-9 apart), each on a fresh thread / all threads concurrently / one after another on the main thread; doubles compared "
         "as bit patterns; (c) 2-16 threads seeding themselves (every 8th scenario: re-seeding 100-300 times each) and drawing from all "
         "samplers at once vs one after the other: every thread's output must be the same; (d) the history-free run of every fifth scenario of (b) on the main thread vs on a new thread. Non-trivial: seed-alone scenario with a non-empty history and a cache-using call (flip or a memoising sampler); "
         "correspondence stream with a re-seed after a draw or more than 64 flips in one call; every Spec comparison. Distinct by content hash.")
@@ -209,6 +224,7 @@ def run(chk):
                 ams = [rngcorr.after_mark(x) for x in runs]
                 model = (" The regenerated Lean model reproduces the difference (so the code, not the tie, is at fault)"
                          if any(a != ams[0] for a in ams[1:]) else " The regenerated Lean model does NOT show the difference")
+        model += memo_note
         if leak:
             model += "; state read by the calls but not written by cmb_random_initialize according to the AST: %s." % ", ".join(leak)
         small.note = ("seed-alone violated (%d failing scenarios, first one shrunk): %s%s\n"
